@@ -500,7 +500,7 @@ FaultStep(e) ==
         \cup (IF t \in live /\ e.op \notin {"clone_from", "xor_assign", "or_assign", "new", "with_capacity"}
                 /\ ~(KI(Elems(obsT[t])) \subseteq KI(A) \cup {<<e.k, e.id>>} \cup {<<y[1], y[2]>> : y \in SeqToSet(e.y)})
              THEN {<<"after a callback panic: the collection holds an element it never contained", {"C04"}>>} ELSE {})
-        \cup (IF e.pn = "hash" /\ grew /\ t \in live /\ e.op \notin {"clone_from", "extend"} /\ KI(Elems(obsT[t])) # KI(A)
+        \cup (IF e.pn = "hash" /\ grew /\ t \in live /\ e.op \notin {"clone_from", "extend", "from_iter"} /\ KI(Elems(obsT[t])) # KI(A)
              THEN {<<"hasher panic while growing into a new allocation changed the contents", {"C04"}>>} ELSE {})
         \cup (IF ~IsSubBag(expectedLive, e.bl) THEN {<<"after a callback panic: a block of a live table is missing from the allocator ledger", {"C04", "C03", "C02"}>>} ELSE {})
         \cup (IF extra # <<>> /\ e.pn # "drop" THEN {<<"after a callback panic: an allocator block leaked without a destructor panic", {"C04", "C03"}>>} ELSE {})
@@ -508,7 +508,7 @@ FaultStep(e) ==
       sel == IF e.op \in {"retain", "extract_if", "t_extract_if", "drain"} THEN {"C10"} ELSE {}
       mine == {b \in bad : PROP = "ALL" \/ PROP \in (b[2] \cup sel)}
       \* STRICT: the fault-aware concrete operator reproduces the post-unwind state (hasher panics of map operations)
-      strictKnown == e.pn = "hash" /\ hd.kind = "map" /\ e.op \notin {"clone", "clone_from", "eq", "get_many_mut", "get_many_kv_mut", "iter", "drop"}
+      strictKnown == e.pn = "hash" /\ hd.kind = "map" /\ e.op \notin {"clone", "clone_from", "eq", "get_many_mut", "get_many_kv_mut", "iter", "drop", "from_iter"}
       expR == MapOp(e, pre, ph, [pa |-> e.fk, hs |-> <<>>])
       \* clone_from whose element Clone panics: the inner guard drops the clones made so far, the outer guard leaves the
       \* target empty with the SOURCE's bucket count (clear_no_drop after the reallocation); clone(): the target is untouched
